@@ -60,6 +60,7 @@ class Impl:
         self.log = []
         log = self.log
         self.entry = entry
+        self.reenter_from_done = False
         self.outer = None
         self.pending_proxy = None
 
@@ -136,6 +137,11 @@ class Impl:
     def ok(self, r):
         if isinstance(r, self.App):
             self.log.append('done connected')
+            if self.armed is not None and self.reenter_from_done:
+                # the caller's connect() callback runs, and the peer's next bytes arrive before it returns
+                nested, self.armed = self.armed, None
+                self.consumed = nested
+                self.proto.dataReceived(bytes.fromhex(nested[1]) if nested[1] != '-' else b'')
         elif isinstance(r, bytes):
             self.log.append('done answer ' + hx(r))
         elif isinstance(r, str):
